@@ -6,6 +6,7 @@ import (
 	"strings"
 	"testing"
 
+	"github.com/idena-network/idena-go/blockchain/fee"
 	"github.com/idena-network/idena-go/blockchain/types"
 	"github.com/idena-network/idena-go/blockchain/validation"
 	"github.com/idena-network/idena-go/common"
@@ -456,7 +457,7 @@ func (e *seqEnv) invariant(t *rapid.T) {
 			if !ok {
 				n = effNonce(s, sender) + 1
 			}
-			if tx.Epoch == s.State.Epoch() && tx.AccountNonce == n && !inList(l, tx.Hash()) && gas+uint64(feeGas(tx)) > gasCap(e.r) {
+			if tx.Epoch == s.State.Epoch() && tx.AccountNonce == n && !inList(l, tx.Hash()) && gas+uint64(fee.CalculateGas(tx)) > gasCap(e.r) {
 				e.capBinding++
 				e.counts["offer.gas_cap_binding"]++
 				break
@@ -609,5 +610,3 @@ func TestSequentialModel(t *testing.T) {
 		}
 	})
 }
-
-func feeGas(tx *types.Transaction) int { return feeCalculateGas(tx) }
